@@ -415,3 +415,25 @@ func Mutate(r *core.Rand, b []byte, hist func(string)) []byte {
 	}
 	return b
 }
+
+// InsertWrongType inserts, at a random top-level position, a record carrying
+// field number num with a wire type other than avoid (well-formed; a
+// conforming parser keeps it as an unknown field).
+func InsertWrongType(r *core.Rand, b []byte, md protoreflect.MessageDescriptor, num protowire.Number, avoid protowire.Type) []byte {
+	recs, ok := ParseWire(b, md, 0)
+	if !ok {
+		return b
+	}
+	var t protowire.Type
+	for {
+		t = wireTypes[r.Intn(len(wireTypes))]
+		if t != avoid {
+			break
+		}
+	}
+	x := randValOfType(r, t)
+	x.Num = num
+	pos := r.Intn(len(recs) + 1)
+	recs = append(recs[:pos:pos], append([]Rec{x}, recs[pos:]...)...)
+	return Serialize(recs)
+}
